@@ -345,6 +345,9 @@ def finish(ctx: Ctx, started: float, seed: int) -> int:
         print(f"KNOWN-FINDING: property={prop} {k.get('id', '')} rule={f.rule} at {f.where} [{f.construct}] ({f.file}:{f.line}): {k.get('what', f.what)}")
     scratch = ctx.repo.root.resolve() != REPO.resolve()
     outdir = VERIF / "out" / ("scratch-violations" if scratch else "violations") / prop
+    if outdir.is_dir():
+        for stale in outdir.glob("*.json"):
+            stale.unlink()
     for f in violations:
         outdir.mkdir(parents=True, exist_ok=True)
         kh = hashlib.sha256("|".join(f.key()).encode()).hexdigest()[:12]
